@@ -138,7 +138,13 @@ def gen_macros(rng):
             if extra not in terms:
                 terms.append(extra)
         g.terms = terms
-    defs = _macro_defs(rng, terms)
+    if rng.random() < 0.4:
+        # bare (identifier) terminals whose names equal macro formal parameters: inside the macro
+        # the parameter shadows the global terminal, outside the name means the terminal
+        for extra in rng.sample(["$X", "$Y", "$Op", "$Next"], rng.randint(1, 2)):
+            terms.append(extra)
+        g.terms = terms
+    defs = _macro_defs(rng, [t for t in terms if not t.startswith("$")])
     user_nts = [nt.name for nt in g.nts if nt.ty == "V"]
 
     def arg(depth=0, literal=False):
